@@ -377,6 +377,19 @@ def build_recipes():
                                                                                min_data=c.sample(k), max_data=c.sample(k),
                                                                                xscale='log', yscale=sc, num_bins=20,
                                                                                violin_kwargs=_own(c, dict(facecolor='gray')))))
+    # ---- fixed recipes with stable names, used by the committed regression cases (not drawn by the strategy)
+    add('__reg__gate.density2d_bins_list', lambda c: (gate.density2d, [c.sample('int')],
+                                                       dict(channels=['FSC-H', 'SSC-H'], bins=_own(c, [8, 6]), gate_fraction=0.5, sigma=1.0)))
+    add('__reg__plot.density2d_bins_list', lambda c: (fplot.density2d, [c.sample('int')],
+                                                       dict(channels=['FSC-H', 'SSC-H'], bins=_own(c, [8, None]), mode='scatter', sigma=1.0)))
+
+    def reg_sel(c, sc):
+        b = c.beads()
+        return (mef.selection_std, [_own(c, [b[np.arange(b.shape[0]) % 3 == i][:, 'FL1-H'] for i in range(3)])], dict(scale=sc))
+    add('__reg__mef.selection_std_linear', lambda c: reg_sel(c, 'linear'))
+    add('__reg__mef.selection_std_log', lambda c: reg_sel(c, 'log'))
+    add('__reg__hist_bins_log', lambda c: (fio.FCSData.hist_bins, [c.sample('int'), 'FSC-H', 16, 'log'], {}))
+    add('__reg__plot.hist1d_log', lambda c: (fplot.hist1d, [c.sample('int')], dict(channel='FSC-H', xscale='log', bins=8)))
     return R
 
 
@@ -417,7 +430,7 @@ def enumerate_callables():
 
 def strategy(tier):
     rec = recipes()
-    names = sorted(rec)
+    names = sorted(n for n in rec if not n.startswith('__reg__'))
     # plots are expensive: draw them less often
     cheap = [n for n in names if not n.startswith('plot.') and n != 'mef.get_transform_fxn']
     costly = [n for n in names if n not in cheap]
@@ -623,5 +636,5 @@ def evidence_extra(tier):
     for n in unc:
         print('UNCOVERED callable=%s' % n)
     return dict(callables_enumerated=len(names), callables_with_recipe=len([n for n in names if n in rec]),
-                recipes=sum(len(v) for v in rec.values()), uncovered_callables=unc,
-                recipe_names_not_found_by_inspection=sorted(n for n in rec if n not in names))
+                recipes=sum(len(v) for k, v in rec.items() if not k.startswith('__reg__')), uncovered_callables=unc,
+                recipe_names_not_found_by_inspection=sorted(n for n in rec if n not in names and not n.startswith('__reg__')))
